@@ -81,6 +81,24 @@ def alias_check(parent_factory, cls, row, rows, value, rec, rowkey, case, k, ext
                           row=rowkey)
             return
         rec.count('rows_aliased')
+        if row.card[1] == -1:
+            # with repetitions: a write through any spelling replaces the first one, and every spelling then lists the same
+            # children in the order the parent holds them
+            p = parent_factory()
+            setattr(p, row.name.lower(), value)
+            getattr(p, row.name.lower())[1] = value
+            getattr(p, row.name.lower())[2] = value
+            setattr(p, wname, value)
+            order = [id(c) for c in p.children.list if c.name == row.name]
+            for rkind, rname in sp:
+                rec.evaluation((rowkey, wkind, rkind, 'read-repetitions'))
+                got = [id(c) for c in getattr(p, rname)]
+                rec.count('repetition_order_comparisons')
+                if got != order or len(order) != 3:
+                    rec.violation('alias-lists-repetitions-in-another-order:%s' % rkind.split('-')[0], case,
+                                  {'written_as': wname, 'read_as': rname, 'positions': [order.index(x) if x in order else -1
+                                                                                         for x in got]}, row=rowkey)
+                    return
     except Exception as e:
         rec.violation('raised:%s' % type(e).__name__, case, {'exc': repr(e)[:200]}, row=rowkey)
 
